@@ -64,12 +64,14 @@ def run(rep, tier):
     from . import c15
     rep.rule('R15f', 'bounded BFS answers true only within the hop bound (an edge is dropped only when a path of <= 2k-1 retained edges exists)', floor=1)
     rep.rule('R15g', 'hop counters of the bounded BFS are as wide as the hop bound', floor=1)
+    rep.rule('R15h', 'the bounded BFS discovers every unseen neighbour within the bound', floor=1)
     nb = 0
     rep.rule('R07k', 'numeric_limits<T>::infinity() only for floating-point T (closed_plus<size_t> counts the hops of the spanner test)', floor=0)
     from . import c07
     for prog in progs.values():
         nb += c15.r15f(rep, prog)
         c15.r15g(rep, prog)
+        c15.r15h(rep, prog)
         c07.r07k(rep, prog)
     if nb == 0:
         rep.analysis_broken('parmcb::is_bfs_reachable is not instantiated (anchor vanished)')
